@@ -100,6 +100,15 @@ package keeper
 //@   requires n >= 0 && pos >= n
 //@   ensures sumDist(store(ptrs, pos, x), amt, d, n) == sumDist(ptrs, amt, d, n)
 //@   prop C18
+//@ // what the first n named shares leave on the main account: the truncated shares whose destination is the MAIN account
+//@ spec func keptOnMain(x int, ptrs [int]int, shr [int]int, typ [int]str, o int, n int) int =
+//@   n <= 0 ? 0 : keptOnMain(x, ptrs, shr, typ, o, n - 1) + (typ[ptrs[o + n - 1]] == "MAIN" ? truncInt(x * shr[ptrs[o + n - 1]]) : 0)
+//@ lemma keptOnMainStep(x int, ptrs [int]int, shr [int]int, typ [int]str, o int, n int)
+//@   requires n >= 1
+//@   ensures keptOnMain(x, ptrs, shr, typ, o, n) == keptOnMain(x, ptrs, shr, typ, o, n - 1) + (typ[ptrs[o + n - 1]] == "MAIN" ? truncInt(x * shr[ptrs[o + n - 1]]) : 0)
+//@   prop C04
+//@ pred keptOf(x, dst, n) = keptOnMain(x, elemRow(dst.Shares), heapOf("types.DestinationShare", "Share"), heapOf("types.DestinationShare", "Destination.Type"), off(dst.Shares), n)
+//@ pred keptStepOf(x, dst, n) = keptOnMainStep(x, elemRow(dst.Shares), heapOf("types.DestinationShare", "Share"), heapOf("types.DestinationShare", "Destination.Type"), off(dst.Shares), n)
 //@ pred wsumOf(x, dst, n) = wsumShares(x, elemRow(dst.Shares), heapOf("types.DestinationShare", "Share"), off(dst.Shares), n)
 //@ pred wsumBoundOf(x, dst, i, b) = wsumBound(x, elemRow(dst.Shares), heapOf("types.DestinationShare", "Share"), off(dst.Shares), i, len(dst.Shares), b)
 //@ // what Account.Validate established for a destination that is paid out (and that it is not the distributor's own main account)
@@ -125,21 +134,30 @@ package keeper
 //@   ensures [books-main] forall d: str :: subDistributor.Destinations.PrimaryShare.Type == "MAIN" ==>
 //@       sumRem(fieldRow(*localRemains, "Remains"), d, len(*localRemains)) >= old(sumRem(fieldRow(*states, "Remains"), d, len(*states)))
 //@       && sumRem(fieldRow(*localRemains, "Remains"), d, len(*localRemains)) <= old(sumRem(fieldRow(*states, "Remains"), d, len(*states))) + coinsToDistributeDec[d]
+//@   // every coin of the inflow is booked to a state, except the named shares that point to the main account (they stay there, unbooked)
 //@   ensures [books] forall d: str :: subDistributor.Destinations.PrimaryShare.Type != "MAIN" ==>
-//@       sumRem(fieldRow(*localRemains, "Remains"), d, len(*localRemains)) == old(sumRem(fieldRow(*states, "Remains"), d, len(*states))) + coinsToDistributeDec[d]
+//@       sumRem(fieldRow(*localRemains, "Remains"), d, len(*localRemains)) + keptOf(coinsToDistributeDec[d], subDistributor.Destinations, len(subDistributor.Destinations.Shares))
+//@         == old(sumRem(fieldRow(*states, "Remains"), d, len(*states))) + coinsToDistributeDec[d]
+//@   ensures [kept-bounds] forall d: str :: 0 <= keptOf(coinsToDistributeDec[d], subDistributor.Destinations, len(subDistributor.Destinations.Shares))
+//@       && keptOf(coinsToDistributeDec[d], subDistributor.Destinations, len(subDistributor.Destinations.Shares)) <= coinsToDistributeDec[d]
 //@   ensures [events] forall d: str :: subDistributor.Destinations.PrimaryShare.Type != "MAIN" ==>
-//@       sumDist(elemRow(distributions), heapOf("types.Distribution", "Amount"), d, len(distributions)) + (burn != nil ? burn.Amount[d] : 0) == coinsToDistributeDec[d]
+//@       sumDist(elemRow(distributions), heapOf("types.Distribution", "Amount"), d, len(distributions)) + (burn != nil ? burn.Amount[d] : 0)
+//@         + keptOf(coinsToDistributeDec[d], subDistributor.Destinations, len(subDistributor.Destinations.Shares)) == coinsToDistributeDec[d]
 //@   ensures [burn-amount] burn != nil ==> (forall d: str :: {burn.Amount[d]} burn.Amount[d] == truncInt(coinsToDistributeDec[d] * subDistributor.Destinations.BurnShare))
 //@   ensures [burn-reported] burn == nil ==> (forall d: str :: truncInt(coinsToDistributeDec[d] * subDistributor.Destinations.BurnShare) == 0)
-//@   prop C03 C04 C18 C01
+//@   prop C03 C04 C18 C01 C10
 //@ loop Keeper.StartDistributionProcess#1
 //@   invariant localRemains != nil && off(*localRemains) == 0 && statesHaveAccounts(*localRemains) && len(*localRemains) >= old(len(*states))
 //@   invariant remainsNonNeg(*localRemains)
 //@   invariant payoutOK(*localRemains)
 //@   invariant forall d: str :: {defaultShare[d]} 0 <= defaultShare[d] && defaultShare[d] <= coinsToDistributeDec[d]
 //@   invariant distAllocated(distributions) && off(distributions) == 0 && 0 <= \i && \i <= len(subDistributor.Destinations.Shares)
-//@   invariant forall d: str :: sumRem(fieldRow(*localRemains, "Remains"), d, len(*localRemains)) + defaultShare[d] == old(sumRem(fieldRow(*states, "Remains"), d, len(*states))) + coinsToDistributeDec[d]
-//@   invariant forall d: str :: sumDist(elemRow(distributions), heapOf("types.Distribution", "Amount"), d, len(distributions)) + defaultShare[d] == coinsToDistributeDec[d]
+//@   invariant forall d: str :: sumRem(fieldRow(*localRemains, "Remains"), d, len(*localRemains)) + defaultShare[d] + keptOf(coinsToDistributeDec[d], subDistributor.Destinations, \i)
+//@       == old(sumRem(fieldRow(*states, "Remains"), d, len(*states))) + coinsToDistributeDec[d]
+//@   invariant forall d: str :: sumDist(elemRow(distributions), heapOf("types.Distribution", "Amount"), d, len(distributions)) + defaultShare[d] + keptOf(coinsToDistributeDec[d], subDistributor.Destinations, \i) == coinsToDistributeDec[d]
+//@   invariant forall d: str :: {coinsToDistributeDec[d]} keptOf(coinsToDistributeDec[d], subDistributor.Destinations, \i) >= 0
+//@       && keptOf(coinsToDistributeDec[d], subDistributor.Destinations, \i) + defaultShare[d] <= coinsToDistributeDec[d]
+//@   uses forall d: str :: {coinsToDistributeDec[d]} keptStepOf(coinsToDistributeDec[d], subDistributor.Destinations, \i + 1)
 //@   // what is left for the primary share is at least the inflow times (1 - sum of the shares handled so far): Sub never goes negative
 //@   invariant forall d: str :: {defaultShare[d]} defaultShare[d] * P + wsumOf(coinsToDistributeDec[d], subDistributor.Destinations, \i) >= coinsToDistributeDec[d] * P
 //@   uses forall d: str :: {coinsToDistributeDec[d]} wsumBoundOf(coinsToDistributeDec[d], subDistributor.Destinations, \i + 1, 0)
